@@ -159,30 +159,78 @@ def run_unit(unit_dir, tag, tier, want_neg=True, only_part=None, prop=None):
     return out
 
 
+def _repairs(bb, run):
+    """What the repair loop can do about non-obligation errors of a run: clauses that no longer
+    type-check against the (changed) code are dropped like lost anchors; callees the code newly calls are
+    extracted as contract-less stubs. Everything else stays an infrastructure error (=> undecided)."""
+    drop, extra = set(), []
+    for it in getattr(run, "infra_items", []):
+        c = it.get("clause")
+        if c is not None and getattr(c, "full_id", None):
+            drop.add(c.full_id)
+            continue
+        msg = it["msg"]
+        piece = it.get("piece")
+        mt = re.search(r"no method named `(\w+)` found for (?:mutable )?(?:reference|struct) `&?(?:mut )?(\w+)", msg)
+        if mt and piece is not None:
+            extra.append({"kind": "methods", "impl": mt.group(2), "names": [mt.group(1)], "stub_only": True,
+                          "source": piece.srcspec if piece.srcspec.startswith("repo:") else None, "_auto": True})
+            continue
+        mt = re.search(r"cannot find function `(\w+)` in this scope", msg)
+        if mt and piece is not None:
+            extra.append({"kind": "fn", "name": mt.group(1), "stub_only": True,
+                          "source": piece.srcspec if piece.srcspec.startswith("repo:") else None, "_auto": True})
+    extra = [e for e in extra if e.get("source")]
+    return drop, extra
+
+
 def run_part(unit_dir, tag, tier, want_neg, part):
     name = os.path.basename(unit_dir) + ("_" + part["name"] if part else "")
     bodies = set(part["bodies"]) if part else None
     res = {"unit": name, "undecided": [], "failures": [], "neg": {}, "wall": 0.0}
     t0 = time.time()
     out = os.path.join(BUILD, tag, name + ".rs")
-    try:
-        b = B.build_unit(unit_dir, out, bodies=bodies)
-        if bodies is not None:
-            have = {p.fnpath for p in b.pieces if p.kind == "fn"}
-            for x in bodies - have:
-                raise B.Undecided("%s: part %s lists unknown body %s" % (b.uid, part["name"], x))
-    except B.Undecided as e:
-        res["undecided"].append(str(e))
-        res["built"] = None
-        return res
+    drop, extra = set(), []
+    b = run = None
+    for attempt in range(4):
+        try:
+            b = B.build_unit(unit_dir, out, bodies=bodies, drop_clauses=drop, extra_items=extra)
+            if bodies is not None:
+                have = {p.fnpath for p in b.pieces if p.kind == "fn"}
+                for x in bodies - have:
+                    raise B.Undecided("%s: part %s lists unknown body %s" % (b.uid, part["name"], x))
+        except B.Undecided as e:
+            if attempt > 0 and extra:
+                extra = []          # the auto-extracted callee could not be built: give up on it
+                continue
+            res["undecided"].append(str(e))
+            res["built"] = None
+            return res
+        run = V.run_verus(b.path)
+        fails, infra = V.classify(b, run)
+        d2, e2 = _repairs(b, run)
+        new_drop = d2 - drop
+        new_extra = [e for e in e2 if e not in extra]
+        if not infra or (not new_drop and not new_extra):
+            break
+        drop |= new_drop
+        extra += new_extra
     res["built"] = b
+    res["run"] = run
+    res["failures"] = fails
+    res["undecided"].extend(infra)
     for p in b.pieces:
         for (cid, tags, msg) in getattr(p, "lost_clauses", []):
             res["undecided"].append("anchor lost for clause %s (%s)%s" % (cid, msg, "" if tags else " [untagged helper]"))
+        for (cid, tags) in getattr(p, "dropped_clauses", []):
+            res["undecided"].append("clause %s no longer type-checks against the extracted code and was dropped%s"
+                                    % (cid, "" if tags else " [untagged helper]"))
+    for e in extra:
+        res["undecided"].append("callee %s is not part of this unit: extracted on the fly as a contract-less stub"
+                                % (e.get("names") or e.get("name")))
     jobs = {}
-    with cf.ThreadPoolExecutor(max_workers=JOBS) as ex:
-        jobs[ex.submit(V.run_verus, b.path)] = ("main", None, b)
-        if want_neg:
+    if want_neg and not res["undecided"] and not fails:
+        with cf.ThreadPoolExecutor(max_workers=JOBS) as ex:
             for gi, g in enumerate(call_groups(b)):
                 paths = {p.fnpath for p in g}
                 outn = os.path.join(BUILD, tag, "%s_neg%d.rs" % (name, gi))
@@ -191,24 +239,26 @@ def run_part(unit_dir, tag, tier, want_neg, part):
                 except B.Undecided as e:
                     res["undecided"].append("negative control: %s" % e)
                     continue
-                jobs[ex.submit(V.run_verus, bn.path)] = ("neg", paths, bn)
-        for fut in cf.as_completed(jobs):
-            kind, paths, bb = jobs[fut]
-            run = fut.result()
-            fails, infra = V.classify(bb, run)
-            if kind == "main":
-                res["run"] = run
-                res["failures"] = fails
-                res["undecided"].extend(infra)
-            else:
+                jobs[ex.submit(V.run_verus, bn.path)] = (paths, bn)
+            for fut in cf.as_completed(jobs):
+                paths, bb = jobs[fut]
+                nrun = fut.result()
+                nfails, ninfra = V.classify(bb, nrun)
                 failed_fns = set()
-                for f in fails:
+                for f in nfails:
                     if f.clause is not None and getattr(f.clause, "cid", "") == "_NEG":
                         failed_fns.add(f.piece.fnpath)
+                # a function whose `ensures false` query runs out of resources was not proved either
+                rlim = [i for i in ninfra if i.startswith("rlimit/timeout")]
+                for i in rlim:
+                    for p in bb.pieces:
+                        if p.kind == "fn" and p.fnpath in paths and p.fnpath.split("::")[-1] in i:
+                            failed_fns.add(p.fnpath)
                 for pth in paths:
                     res["neg"][pth] = pth in failed_fns
-                for i in infra:
-                    res["undecided"].append("negative control: " + i)
+                for i in ninfra:
+                    if i not in rlim:
+                        res["undecided"].append("negative control: " + i)
     res["wall"] = time.time() - t0
     return res
 
